@@ -152,6 +152,11 @@ impl GenerationPass for AvailableValuePass {
 
                 // out[n] = gen[n] U (in[n] - kill[n]) U (callee_saved if n is entry)
                 let mut out_reg_n = node.reg_values_in();
+                if node.is_function_entry() {
+                    // What holds on a path that falls into the entry says nothing
+                    // about a call of the function: only the convention does
+                    out_reg_n = AvailableValueMap::new();
+                }
                 out_reg_n -= node.kill_reg().iter();
                 if node.calls_to().is_some() {
                     out_reg_n -= Register::return_addr_set().iter();
